@@ -119,6 +119,34 @@ def make_enum(job, workdir):
     return enum
 
 
+def _sides(ob):
+    """SMT-LIB names of the two sides of an eq/le/lt obligation (for the margin re-query of cli.run_check)"""
+    if ob['kind'] not in ('eq', 'le', 'lt'):
+        return None
+    def ref(x):
+        if isinstance(x, Term):
+            return x.args[0] if x.op == 'sym' else f't{x.id}'
+        return smt.num(x, 'R')
+    try:
+        return [ref(ob['a']), ref(ob['b'])]
+    except Exception:
+        return None
+
+
+def margin_assert(kind, sides, text, rel='0.000001'):
+    """the obligation fails by more than the native replay tolerance (relative 1e-9): |a-b| > 1e-6 (|a|+|b|+1e-3).
+    Used only to steer the solver to a model that a floating-point run can exhibit; never to discharge anything."""
+    a, b = sides
+    for x in sides:
+        if re.match(r't\d+$', x) and f'(define-fun {x} ' not in text and f'(declare-fun {x} ' not in text:
+            return None
+    ab = lambda x: f'(ite (>= {x} 0.0) {x} (- {x}))'
+    m = f'(* {rel} (+ {ab(a)} {ab(b)} 0.001))'
+    if kind == 'eq':
+        return f'(assert (or (> (- {a} {b}) {m}) (> (- {b} {a}) {m})))'
+    return f'(assert (> (- {a} {b}) {m}))'
+
+
 def goal_of(ob):
     """returns (negated goal Bool term or python bool, trivial?)"""
     k = ob['kind']
@@ -472,7 +500,7 @@ def _job_worker(idx):
                 open(f, 'w').write(text)
                 summary['batches'].append(dict(path=pid, kind='witness' if wit else 'prop', file=f, logic=logic, ndefs=nd, hinted=hinted,
                                                hint_env=hints[key[1]][1] if hinted else None, cap=(15 if hinted else None),
-                                               goals=[dict(tag=ob['tag'], k=ob['k'], kind=ob['kind'], extra=ob.get('extra')) for ob, g in chunk]))
+                                               goals=[dict(tag=ob['tag'], k=ob['k'], kind=ob['kind'], extra=ob.get('extra'), sides=_sides(ob)) for ob, g in chunk]))
         if getattr(m, 'omp', None) is not None and m.omp.mode == 'race' and pr.outcome not in ('engine-error', 'infeasible'):
             from . import omp as _omp
             sp = _omp.serialise_path(m, pid)
